@@ -194,7 +194,23 @@ impl Check for C09Check {
             } else {
                 unreachable!()
             };
-            let body = vec![G::Conde(vec![vec![G::Conj(p.body)], vec![producer]])];
+            let mut clauses = vec![vec![G::Conj(p.body)], vec![producer]];
+            if g.w.chance(1, 3) {
+                // a depth-first sub-search that diverges silently in its first alternative: it
+                // must not keep the producer from being scheduled
+                let stall = G::Leaf(Leaf {
+                    id: 701,
+                    target: T::V(0),
+                    answers: vec![],
+                    shape: Shape::Chain,
+                    tail: Tail::Stall,
+                    end_latency: 0,
+                });
+                let block = G::Dfs(vec![G::Conde(vec![vec![stall], vec![G::Eq(T::V(0), T::I(7999))]])]);
+                let at = g.w.below(clauses.len() + 1);
+                clauses.insert(at, vec![block]);
+            }
+            let body = vec![G::Conde(clauses)];
             (Program { nq: p.nq, defs: p.defs, body }, "infinite-producer")
         } else if kind < 14 {
             let o = TreeOpts::small();
@@ -240,7 +256,7 @@ impl Check for C09Check {
 
     fn known_class(&self, case: &Case) -> Option<String> {
         if case.oracle == "fd" {
-            crate::classes::fd_order_class(&case.program)
+            crate::classes::fd_neq_class(&case.program).or_else(|| crate::classes::fd_order_class(&case.program))
         } else {
             None
         }
@@ -282,6 +298,23 @@ impl Check for C09Check {
         if infinite {
             if base.answers.len() < PREFIX {
                 if matches!(base.end, End::WorkCap) {
+                    // no committed-choice operator in these programs: a quantum that eats the
+                    // whole work budget is a search step that does not return
+                    if base.stats.quanta.saturating_mul(2_000) < base.stats.work {
+                        return CaseResult {
+                            verdict: Verdict::Violation {
+                                class: "lazy-prefix-not-delivered".into(),
+                                detail: format!(
+                                    "asked for {} answers, got {}: {} engine steps were spent in only {} scheduling quanta (a step that does not return)",
+                                    PREFIX,
+                                    base.answers.len(),
+                                    base.stats.work,
+                                    base.stats.quanta
+                                ),
+                            },
+                            facts,
+                        };
+                    }
                     return CaseResult { verdict: Verdict::Inconclusive("work cap".into()), facts };
                 }
                 return CaseResult {
